@@ -18,7 +18,7 @@ Example ex_segs_text : expr_text ex_segs " - 1" = "lag(X[`2001`:`2003`], 1) + Y[
 Proof. vm_compute. reflexivity. Qed.
 
 Example ex_segs_resolve :
-  Forall2 (fun s t => resolve_group (span_has sp_years) (span_locate sp_years) (sg_g s) = Ret t) ex_segs ["[1:4:]"; "[4]"; "[0]"].
+  Forall2 (fun s t => seg_out (span_has sp_years) (span_locate sp_years) s = Ret t) ex_segs ["[1:4:]"; "[4]"; "[0]"].
 Proof. repeat constructor. Qed.
 
 Example ex_segs_rewritten :
@@ -26,19 +26,28 @@ Example ex_segs_rewritten :
   expr_subst ex_segs ["[1:4:]"; "[4]"; "[0]"] " - 1" = "lag(X[1:4:], 1) + Y[4] * Z[0] - 1".
 Proof. split; vm_compute; reflexivity. Qed.
 
-(* the first failing bracket decides: here the second one (KeyError), although the third would raise ValueError *)
-Definition ex_segs_bad : list seg := [mkSeg "X" "" "`2001`" ""; mkSeg " + Y" "" "`1999`" ""; mkSeg " + Z" "" "a-1" ""].
+(* the first failing bracket decides: here the second one (KeyError), although the third would raise ValueError;
+   the positional bracket [a-1] in front is not even looked at *)
+Definition ex_segs_bad : list seg := [mkSeg "X" "" "a-1" ""; mkSeg " + Y" "" "`1999`" ""; mkSeg " + Z" "" "`2001`:a" ""].
 Example ex_first_error :
   forallb seg_ok ex_segs_bad = true /\
-  resolve_group (span_has sp_years) (span_locate sp_years) "`1999`" = Raise KeyError /\
-  resolve_group (span_has sp_years) (span_locate sp_years) "a-1" = Raise ValueError /\
+  seg_out (span_has sp_years) (span_locate sp_years) (mkSeg "X" "" "a-1" "") = Ret "[a-1]" /\
+  seg_out (span_has sp_years) (span_locate sp_years) (mkSeg " + Y" "" "`1999`" "") = Raise KeyError /\
+  seg_out (span_has sp_years) (span_locate sp_years) (mkSeg " + Z" "" "`2001`:a" "") = Raise ValueError /\
   eval_text_span sp_years (expr_text ex_segs_bad "") = Raise KeyError.
 Proof. repeat split; vm_compute; reflexivity. Qed.
 
+(* the pieces of an arbitrary (here: malformed) string and what becomes of them *)
+Example ex_scan :
+  scan "X[ 1:3 ]+Y[`2001`]]+[]" =
+    [PLit "X"; PBr "[ 1:3 ]" "1:3"; PLit "+"; PLit "Y"; PBr "[`2001`]" "`2001`"; PLit "]"; PLit "+"; PBrNone "[]"] /\
+  rewrite_span sp_years "X[ 1:3 ]+Y[`2001`]]+[]" = Ret "X[ 1:3 ]+Y[1]]+[]".
+Proof. split; vm_compute; reflexivity. Qed.
+
 (* ---- exceptions: each of the three classes occurs; a span whose lookup raises something else passes it on ---- *)
 Example ex_exn_classes :
-  rewrite_span sp_str "X[a]" = Raise ValueError /\ rewrite_span sp_str "X[`zz`]" = Raise KeyError /\
-  rewrite_span sp_str "X[]" = Raise AttributeError /\
+  rewrite_span sp_str "X[`a`:b]" = Raise ValueError /\ rewrite_span sp_str "X[`zz`]" = Raise KeyError /\
+  rewrite_span sp_str "X[]" = Ret "X[]" /\
   rewrite_span (SpanTable [(LStr "q", (true, Raise TypeError))]) "X[`q`]" = Raise TypeError.
 Proof. repeat split; vm_compute; reflexivity. Qed.
 
